@@ -446,8 +446,58 @@ pub fn run(ctx: &Ctx) -> Report {
         }
     }
 
+    // 4. gap sweep: a token ending at every offset, followed by a whitespace run of a length around
+    //    the chunk widths (whole blank 16/32/64-byte chunks), followed by another token or the end of
+    //    input; with and without an enclosing array. Long insignificant-whitespace runs are ordinary
+    //    in indented documents, and a builder may treat an all-blank chunk specially.
+    {
+        let toks: [&[u8]; 7] = [b"1", b"-12.5e3", b"true", b"null", b"\"s\"", b"]", b"}"];
+        let tails: [&[u8]; 6] = [b"", b"2", b"false", b"\"t\"", b"]", b","];
+        let gaps: &[usize] = if ctx.tiny() { &[0, 16, 32, 33] } else { &[0, 1, 15, 16, 17, 31, 32, 33, 47, 48, 63, 64, 65, 95, 96, 97, 128, 160] };
+        let ends = if ctx.tiny() { 34 } else { 72 };
+        let ws_kinds: [u8; 4] = [b' ', b'\n', b'\t', b'\r'];
+        let mut k = 0usize;
+        for (ti, tok) in toks.iter().enumerate() {
+            for end in tok.len()..ends {
+                for &gap in gaps {
+                    k += 1;
+                    if ctx.tiny() && k % 7 != 0 {
+                        continue;
+                    }
+                    let tail = tails[(k + ti) % tails.len()];
+                    let wsb = ws_kinds[k % 4];
+                    let mut b = Vec::with_capacity(end + gap + 8);
+                    let open = k % 3 == 0 && end > tok.len();
+                    if open {
+                        b.push(b'[');
+                    }
+                    while b.len() + tok.len() < end {
+                        b.push(b' ');
+                    }
+                    b.extend_from_slice(tok);
+                    b.resize(b.len() + gap, wsb);
+                    b.extend_from_slice(tail);
+                    rep.count("class.gap_sweep");
+                    if gap >= 32 {
+                        rep.count("gap.blank_chunk_ge32");
+                    }
+                    if b.len() % 32 == 0 {
+                        rep.count("gap.input_ends_on_32_boundary");
+                    }
+                    let (ok, h) = check_bytes(&mut rep, &b, "gap_sweep");
+                    digest = crate::rng::mix(digest, h);
+                    if ok {
+                        rep.nontrivial(crate::rng::fnv(&b));
+                    }
+                }
+            }
+        }
+    }
+
     rep.digest("c05.reference", digest);
     if !ctx.tiny() {
+        rep.require("gap.blank_chunk_ge32", 1000);
+        rep.require("gap.input_ends_on_32_boundary", 50);
         for edge in ["16", "32", "64"] {
             rep.require(&format!("carry.string.edge{edge}"), 200);
             rep.require(&format!("carry.escape.edge{edge}"), 50);
